@@ -14,7 +14,9 @@ LATIN1 = "éüñßÿ¡©"
 CP1252 = "€’…œ"
 BMP = "汉字Ωжあ"
 ASTRAL = "😀𝔘"
-ENTITY_LOOKALIKES = ["&amp;", "&#38;", "&lt;b&gt;", "&nbsp;", "a&b;", "&&", "<!--", "]]>", "<![CDATA[x]]>", "</OFX>", "<A>"]
+ENTITY_LOOKALIKES = ["&amp;", "&#38;", "&lt;b&gt;", "&nbsp;", "a&b;", "&&", "<!--", "]]>", "<![CDATA[x]]>", "</OFX>", "<A>",
+                     # double-escaped: the STORED value then literally contains an entity sequence
+                     "&amp;amp;", "&amp;lt;b&amp;gt;", "x&amp;nbsp;y", "&amp;amp;amp;", "R&amp;amp;D <lab> & co", "&amp;gt;&gt;>", "&amp;apos;'", "&amp;quot;\""]
 
 TZNAMES = ["EST", "UTC", "GMT", "PST", "X", "-03", "+0530", "A B", "Zoné", "30", "EST5EDT", "a.b"]
 
@@ -43,9 +45,18 @@ def gen_str(rng, maxlen, stratum="mixed"):
                 alpha += "\n\t"
             s = "".join(rng.choice(alpha) for _ in range(n))
         s = s.strip()
-        if s and len(s) <= cap and s == s.strip():
+        # String.convert() decodes entities when the value is stored: the stored value must
+        # itself be non-empty and free of leading/trailing whitespace (C01's quantifier)
+        dec = _decode(s)
+        if s and len(s) <= cap and dec and dec == dec.strip():
             return s
     return "x"
+
+
+def _decode(s):
+    for ent, ch in (("&lt;", "<"), ("&gt;", ">"), ("&nbsp;", " "), ("&apos;", "'"), ("&quot;", '"'), ("&amp;", "&")):
+        s = s.replace(ent, ch)
+    return s
 
 
 def gen_tz(rng):
